@@ -39,23 +39,34 @@ fn hxs(xs: &[f64]) -> String {
 fn ft(x: f64) -> String { format!("F{x:?}") }
 
 #[derive(Clone, Debug)]
-pub enum Tree { L(usize), B(usize), M(Box<Tree>, Box<Tree>) }
+pub enum Tree { L(usize), B(usize), /** `TDigest::new` + `add_weighted` of (value, weight) pairs */ W(usize), M(Box<Tree>, Box<Tree>) }
 impl Tree {
     fn enc(&self, out: &mut Vec<String>) {
         match self {
             Tree::L(n) => out.push(format!("L{n}")),
             Tree::B(n) => out.push(format!("B{n}")),
+            Tree::W(n) => out.push(format!("W{n}")),
             Tree::M(l, r) => { out.push("M".into()); l.enc(out); r.enc(out); }
         }
     }
     fn encode(&self) -> String { let mut v = vec![]; self.enc(&mut v); v.join(",") }
-    fn size(&self) -> usize { match self { Tree::L(n) | Tree::B(n) => *n, Tree::M(l, r) => l.size() + r.size() } }
+    fn size(&self) -> usize { match self { Tree::L(n) | Tree::B(n) | Tree::W(n) => *n, Tree::M(l, r) => l.size() + r.size() } }
+    fn has_w(&self) -> bool { match self { Tree::W(_) => true, Tree::M(l, r) => l.has_w() || r.has_w(), _ => false } }
+    /// per input position: does it sit in a `W` leaf (its weight is used)?
+    fn in_w(&self, out: &mut Vec<bool>) {
+        match self {
+            Tree::L(n) | Tree::B(n) => out.extend(std::iter::repeat(false).take(*n)),
+            Tree::W(n) => out.extend(std::iter::repeat(true).take(*n)),
+            Tree::M(l, r) => { l.in_w(out); r.in_w(out); }
+        }
+    }
     fn leaves(&self) -> usize { match self { Tree::M(l, r) => l.leaves() + r.leaves(), _ => 1 } }
     /// the same tree after deleting the values whose `keep` flag is false
     fn restrict(&self, keep: &[bool], pos: &mut usize) -> Tree {
         match self {
             Tree::L(n) => { let c = keep[*pos..*pos + n].iter().filter(|b| **b).count(); *pos += n; Tree::L(c) }
             Tree::B(n) => { let c = keep[*pos..*pos + n].iter().filter(|b| **b).count(); *pos += n; Tree::B(c) }
+            Tree::W(n) => { let c = keep[*pos..*pos + n].iter().filter(|b| **b).count(); *pos += n; Tree::W(c) }
             Tree::M(l, r) => { let a = l.restrict(keep, pos); let b = r.restrict(keep, pos); Tree::M(Box::new(a), Box::new(b)) }
         }
     }
@@ -77,7 +88,7 @@ fn random_tree(rng: &mut Rng, n: usize, depth: usize, allow_built: bool) -> Tree
 
 /* ------------------------------------------------------------------ t-digest: real side */
 
-fn eval_td(c: &ApproxQuantiles<f64>, t: &Tree, vals: &[f64], pos: &mut usize) -> TDigest {
+fn eval_td(c: &ApproxQuantiles<f64>, delta: f64, t: &Tree, vals: &[f64], wts: &[f64], pos: &mut usize) -> TDigest {
     match t {
         Tree::L(n) => {
             let mut acc = c.create();
@@ -86,9 +97,16 @@ fn eval_td(c: &ApproxQuantiles<f64>, t: &Tree, vals: &[f64], pos: &mut usize) ->
             acc
         }
         Tree::B(n) => { let a = c.build_from_group(&vals[*pos..*pos + n]); *pos += n; a }
+        Tree::W(n) => {
+            // direct use of the public `TDigest`: `new` + `add_weighted`
+            let mut acc = TDigest::new(delta);
+            for j in *pos..*pos + n { acc.add_weighted(vals[j], wts[j]); }
+            *pos += n;
+            acc
+        }
         Tree::M(l, r) => {
-            let mut a = eval_td(c, l, vals, pos);
-            let b = eval_td(c, r, vals, pos);
+            let mut a = eval_td(c, delta, l, vals, wts, pos);
+            let b = eval_td(c, delta, r, vals, wts, pos);
             c.merge(&mut a, b);
             a
         }
@@ -108,11 +126,20 @@ type St = (Vec<(f64, f64)>, f64, f64, f64);
 /// `None` = not known (a pipeline result that could not be re-derived from its merge tree).
 struct TdOut { est: Vec<f64>, state: St, cdfs: Vec<f64>, queried: Option<St> }
 
+fn ones(n: usize) -> Vec<f64> { vec![1.0; n] }
+
+/// the harness's own statement of which weights `add_weighted` accepts: positive finite numbers
+fn weight_ok(w: f64) -> bool { w.is_finite() && w > 0.0 }
+
 fn real_td(delta: f64, fin: Fin, tree: &Tree, vals: &[f64], qs: &[f64], cdfs: &[f64]) -> Result<TdOut, String> {
+    real_tdw(delta, fin, tree, vals, &ones(vals.len()), qs, cdfs)
+}
+
+fn real_tdw(delta: f64, fin: Fin, tree: &Tree, vals: &[f64], wts: &[f64], qs: &[f64], cdfs: &[f64]) -> Result<TdOut, String> {
     guarded(|| {
         let c = ApproxQuantiles::<f64>::new(qs.to_vec(), delta);
         let mut pos = 0;
-        let acc = eval_td(&c, tree, vals, &mut pos);
+        let acc = eval_td(&c, delta, tree, vals, wts, &mut pos);
         let state = acc.verif_state();
         let cd: Vec<f64> = cdfs.iter().map(|v| acc.cdf(*v)).collect();
         let qs_eff: Vec<f64> = if fin == Fin::Med { vec![0.5] } else { qs.to_vec() };
@@ -147,8 +174,9 @@ enum Cover { Min, Max, At(usize), Past }
 fn cover(st: &St, q: f64) -> Cover {
     let (cs, total, _, _) = st;
     let q = if q.is_nan() { q } else { q.clamp(0.0, 1.0) };
-    if (q - 0.0).abs() <= f64::EPSILON || cs.len() == 1 { return Cover::Min; }
+    if (q - 0.0).abs() <= f64::EPSILON { return Cover::Min; }
     if (q - 1.0).abs() <= f64::EPSILON { return Cover::Max; }
+    if cs.len() == 1 { return Cover::Min; }
     let target = q * total;
     let mut cum = 0.0;
     for (i, (_, w)) in cs.iter().enumerate() {
@@ -192,13 +220,29 @@ fn td_answer(o: &TdOut, qs_eff: &[f64], full: bool) -> String {
     s
 }
 
-/// the property's own statement on the real answer
-fn td_oracle(cx: &mut Ctx, i: usize, delta: f64, fin: Fin, tree: &Tree, vals: &[f64], qs: &[f64], o: &TdOut, check_total: bool) {
+/// the property's own statement on the real answer. An INPUT is a finite value (in a `W` leaf: offered with a
+/// positive finite weight); everything else must be ignored.
+fn td_oracle(cx: &mut Ctx, i: usize, delta: f64, fin: Fin, tree: &Tree, vals: &[f64], wts: &[f64], qs: &[f64], o: &TdOut, check_total: bool) {
     let qs_eff: Vec<f64> = if fin == Fin::Med { vec![0.5] } else { qs.to_vec() };
-    let fin_vals: Vec<f64> = vals.iter().copied().filter(|v| v.is_finite()).collect();
+    let mut in_w = vec![];
+    tree.in_w(&mut in_w);
+    let keep: Vec<bool> = (0..vals.len()).map(|j| vals[j].is_finite() && (!in_w[j] || weight_ok(wts[j]))).collect();
+    let fin_vals: Vec<f64> = (0..vals.len()).filter(|j| keep[*j]).map(|j| vals[j]).collect();
+    let fin_wts: Vec<f64> = (0..vals.len()).filter(|j| keep[*j]).map(|j| wts[j]).collect();
     let n = fin_vals.len();
-    if check_total && o.state.1 != n as f64 {
+    if check_total && !tree.has_w() && o.state.1 != n as f64 {
         cx.oracle_fail(i, "tdigest-total-weight-not-count-of-finite-inputs", format!("total={} finite inputs={n}", o.state.1));
+    }
+    if check_total && tree.has_w() {
+        // sums of multiples of 1/4 below 2^50 are exact in f64 in any order
+        let used: Vec<f64> = (0..vals.len()).filter(|j| keep[*j]).map(|j| if in_w[j] { wts[j] } else { 1.0 }).collect();
+        if used.iter().all(|w| (*w * 4.0).fract() == 0.0 && *w <= 1e6) {
+            let want: f64 = used.iter().sum();
+            if o.state.1 != want {
+                cx.oracle_fail(i, "tdigest-total-weight-not-sum-of-accepted-weights", format!("total={} sum of the accepted weights={want} ({n} accepted inputs)", o.state.1));
+            }
+            cx.count("tdigest:weighted, total weight checked exactly");
+        }
     }
     if n == 0 {
         if o.est.iter().any(|e| !e.is_nan()) {
@@ -242,12 +286,11 @@ fn td_oracle(cx: &mut Ctx, i: usize, delta: f64, fin: Fin, tree: &Tree, vals: &[
             }
         }
     }
-    // non-finite inputs are ignored: same request without them gives the same answer
+    // non-finite inputs (and pairs with an inadmissible weight) are ignored: same request without them gives the same answer
     if n != vals.len() {
-        let keep: Vec<bool> = vals.iter().map(|v| v.is_finite()).collect();
         let mut pos = 0;
         let t2 = tree.restrict(&keep, &mut pos);
-        match real_td(delta, fin, &t2, &fin_vals, qs, &[]) {
+        match real_tdw(delta, fin, &t2, &fin_vals, &fin_wts, qs, &[]) {
             Ok(o2) => {
                 let same = o2.est.len() == o.est.len() && o2.est.iter().zip(&o.est).all(|(a, b)| a.to_bits() == b.to_bits() || (a.is_nan() && b.is_nan()) || a == b);
                 if !same {
@@ -256,22 +299,45 @@ fn td_oracle(cx: &mut Ctx, i: usize, delta: f64, fin: Fin, tree: &Tree, vals: &[
             }
             Err(e) => cx.oracle_fail(i, "tdigest-panic", format!("finite-only rerun panicked: {e}")),
         }
-        cx.count("tdigest:with non-finite inputs");
+        cx.count("tdigest:with non-finite inputs or inadmissible weights");
     }
 }
 
 fn one_td(cx: &mut Ctx, delta: f64, fin: Fin, tree: &Tree, vals: &[f64], qs: &[f64], cdfs: &[f64]) {
+    one_tdw(cx, delta, fin, tree, vals, &ones(vals.len()), qs, cdfs);
+}
+
+fn one_tdw(cx: &mut Ctx, delta: f64, fin: Fin, tree: &Tree, vals: &[f64], wts: &[f64], qs: &[f64], cdfs: &[f64]) {
     debug_assert_eq!(tree.size(), vals.len());
-    let req = format!("TDIGEST {} {} full {} {} {} {}", hx(delta), fin.s(), tree.encode(), hxs(vals), hxs(qs), hxs(cdfs));
+    debug_assert_eq!(wts.len(), vals.len());
+    let weighted = tree.has_w();
+    let req = if weighted {
+        format!("TDIGESTW {} {} full {} {} {} {} {}", hx(delta), fin.s(), tree.encode(), hxs(vals), hxs(wts), hxs(qs), hxs(cdfs))
+    } else {
+        format!("TDIGEST {} {} full {} {} {} {}", hx(delta), fin.s(), tree.encode(), hxs(vals), hxs(qs), hxs(cdfs))
+    };
     let qs_eff: Vec<f64> = if fin == Fin::Med { vec![0.5] } else { qs.to_vec() };
     let nt = vals.len() >= 2 && !qs_eff.is_empty();
-    match real_td(delta, fin, tree, vals, qs, cdfs) {
+    match real_tdw(delta, fin, tree, vals, wts, qs, cdfs) {
         Ok(o) => {
             let i = cx.case(req, td_answer(&o, &qs_eff, true), nt);
             cx.count(&format!("tdigest:fin={}", fin.s()));
             cx.count(&format!("tdigest:n~{}", bucket(vals.len())));
             cx.count(&format!("tdigest:leaves~{}", bucket(tree.leaves())));
             cx.count(&format!("tdigest:centroids~{}", bucket(o.state.0.len())));
+            if weighted {
+                cx.count("tdigest:weighted (add_weighted leaves)");
+                let mut in_w = vec![];
+                tree.in_w(&mut in_w);
+                for j in 0..wts.len() {
+                    if in_w[j] {
+                        let w = wts[j];
+                        cx.count(if w.is_nan() { "tdigest:weight NaN" } else if w.is_infinite() { "tdigest:weight ±inf" } else if w == 0.0 { "tdigest:weight 0" }
+                                 else if w < 0.0 { "tdigest:weight negative" } else if w < 1.0 { "tdigest:weight in (0,1)" } else if w == 1.0 { "tdigest:weight 1" } else { "tdigest:weight > 1" });
+                    }
+                }
+                if o.state.0.len() == 1 && o.state.2 < o.state.3 { cx.count("tdigest:single centroid with min < max"); }
+            }
             match &o.queried {
                 None => cx.oracle_fail(i, "tdigest-finish-differs-from-compress-then-quantile", format!("est={:?}", o.est)),
                 Some(st) => if !sorted_by_mean(st) {
@@ -282,7 +348,11 @@ fn one_td(cx: &mut Ctx, delta: f64, fin: Fin, tree: &Tree, vals: &[f64], qs: &[f
                     cx.oracle_fail(i, "tdigest-queried-centroids-not-sorted-by-mean", format!("fin={} centroid {j} mean {:?} > centroid {} mean {:?} ({} centroids)", fin.s(), st.0[j].0, j + 1, st.0[j + 1].0, st.0.len()));
                 }
             }
-            td_oracle(cx, i, delta, fin, tree, vals, qs, &o, true);
+            // every stored centroid carries a positive finite weight (what `add_weighted` admits)
+            if let Some((m, w)) = o.state.0.iter().find(|(_, w)| !weight_ok(*w)) {
+                cx.oracle_fail(i, "tdigest-centroid-with-inadmissible-weight", format!("centroid mean {m:?} weight {w:?}"));
+            }
+            td_oracle(cx, i, delta, fin, tree, vals, wts, qs, &o, true);
         }
         Err(e) => {
             let i = cx.case(req, "PANIC".into(), nt);
@@ -299,17 +369,38 @@ fn grid(n: usize) -> Vec<f64> { (0..=n).map(|i| i as f64 / n as f64).collect() }
 
 /* ------------------------------------------------------------------ KMV: real side */
 
-fn eval_kmv(c: &KMVApproxDistinctCount<u64>, t: &Tree, ranks: &[f64], pos: &mut usize) -> KMVAcc {
+/// what a KMV leaf is fed with: hand-picked ranks (through the `verif_try_insert` hook; `L` leaves only), or `u64`
+/// VALUES through the real `add_input` (`L`) / the real `build_from_group` (`B`), which hash them themselves
+#[derive(Clone, Copy)]
+enum KIn<'a> { Ranks(&'a [f64]), Values(&'a [u64]) }
+impl KIn<'_> {
+    fn len(&self) -> usize { match self { KIn::Ranks(r) => r.len(), KIn::Values(v) => v.len() } }
+    fn ranks(&self) -> Vec<f64> { match self { KIn::Ranks(r) => r.to_vec(), KIn::Values(v) => v.iter().map(verif_rank_from_value).collect() } }
+}
+
+fn eval_kmv(c: &KMVApproxDistinctCount<u64>, t: &Tree, input: KIn, pos: &mut usize) -> KMVAcc {
     match t {
-        Tree::L(n) | Tree::B(n) => {
+        Tree::L(n) => {
             let mut acc = c.create();
-            for r in &ranks[*pos..*pos + n] { acc.verif_try_insert(*r); }
+            match input {
+                KIn::Ranks(ranks) => for r in &ranks[*pos..*pos + n] { acc.verif_try_insert(*r); },
+                KIn::Values(vals) => for v in &vals[*pos..*pos + n] { c.add_input(&mut acc, *v); },
+            }
             *pos += n;
             acc
         }
+        Tree::B(n) => {
+            let acc = match input {
+                KIn::Values(vals) => c.build_from_group(&vals[*pos..*pos + n]),
+                KIn::Ranks(_) => panic!("harness: a B leaf needs values (build_from_group hashes them itself)"),
+            };
+            *pos += n;
+            acc
+        }
+        Tree::W(_) => panic!("harness: no weighted leaves for KMV"),
         Tree::M(l, r) => {
-            let mut a = eval_kmv(c, l, ranks, pos);
-            let b = eval_kmv(c, r, ranks, pos);
+            let mut a = eval_kmv(c, l, input, pos);
+            let b = eval_kmv(c, r, input, pos);
             c.merge(&mut a, b);
             a
         }
@@ -324,11 +415,11 @@ fn kmv_comb(k: usize, raw: bool) -> KMVApproxDistinctCount<u64> {
 
 struct KmvOut { est: Result<f64, String>, heap: Vec<f64>, set: Vec<f64>, k: usize }
 
-fn real_kmv(k: usize, raw: bool, tree: &Tree, ranks: &[f64]) -> Result<KmvOut, String> {
+fn real_kmv(k: usize, raw: bool, tree: &Tree, input: KIn) -> Result<KmvOut, String> {
     guarded(|| {
         let c = kmv_comb(k, raw);
         let mut pos = 0;
-        let acc = eval_kmv(&c, tree, ranks, &mut pos);
+        let acc = eval_kmv(&c, tree, input, &mut pos);
         let (heap, set, kk) = acc.verif_state();
         let est = guarded(|| c.finish(acc));
         KmvOut { est, heap, set, k: kk }
@@ -344,11 +435,21 @@ fn kmv_reference(ranks: &[f64], k: usize) -> (Vec<f64>, usize) {
     (d, dn)
 }
 
-fn one_kmv(cx: &mut Ctx, k: usize, raw: bool, tree: &Tree, ranks: &[f64]) {
-    debug_assert_eq!(tree.size(), ranks.len());
+const COLLISION_KEY: &str = "kmv:rank collision among inputs (hash not injective on them): exactness in VALUES not judged";
+/// `hinj` of the Lean theorem `kmv_exact_below_k` is an assumption about SipHash + the 53-bit rank; the harness may
+/// skip at most this many cases per run for that reason (expected: 0; two distinct u64 values share a rank with
+/// probability 2^-53 per pair). More skips = the rank function lost its resolution = an oracle failure.
+const COLLISION_BOUND: u64 = 1;
+
+fn one_kmv(cx: &mut Ctx, k: usize, raw: bool, tree: &Tree, ranks: &[f64]) { one_kmv_in(cx, k, raw, tree, KIn::Ranks(ranks)); }
+
+fn one_kmv_in(cx: &mut Ctx, k: usize, raw: bool, tree: &Tree, input: KIn) {
+    debug_assert_eq!(tree.size(), input.len());
+    let ranks_v = input.ranks();
+    let ranks = &ranks_v[..];
     let req = format!("KMV {k} {} full {} {}", if raw { "raw" } else { "new" }, tree.encode(), hxs(ranks));
     let nt = ranks.len() >= 2;
-    let o = match real_kmv(k, raw, tree, ranks) {
+    let o = match real_kmv(k, raw, tree, input) {
         Ok(o) => o,
         Err(e) => { let i = cx.case(req, "PANIC".into(), nt); cx.oracle_fail(i, "kmv-panic", e); return; }
     };
@@ -358,20 +459,27 @@ fn one_kmv(cx: &mut Ctx, k: usize, raw: bool, tree: &Tree, ranks: &[f64]) {
     ans.push_str(" | S");
     for h in &o.set { ans.push(' '); ans.push_str(&ft(*h)); }
     let i = cx.case(req, ans, nt);
-    let keff = o.k;
+    // the sketch size the property speaks about: `new(k)` documents max(k, 4); `raw` sets the public field
+    let keff = if raw { k } else { k.max(4) };
+    if o.k != keff {
+        cx.oracle_fail(i, "kmv-sketch-size-not-max(k,4)", format!("requested k={k} ({}) accumulator k={}", if raw { "field" } else { "new" }, o.k));
+    }
     let (want, d) = kmv_reference(ranks, keff);
     cx.count(&format!("kmv:k={}", if keff <= 8 { keff.to_string() } else { bucket(keff).to_string() }));
     cx.count(if d < keff { "kmv:below-k" } else if d == keff { "kmv:d=k" } else { "kmv:above-k" });
     cx.count(&format!("kmv:leaves~{}", bucket(tree.leaves())));
+    if let KIn::Values(_) = input { cx.count("kmv:fed with values (real add_input / build_from_group)"); }
+    if matches!(input, KIn::Values(_)) && tree.encode().contains('B') { cx.count("kmv:trees with a build_from_group leaf"); }
     if keff == 0 { cx.count("kmv:k=0 (correspondence only)"); return; }
     if o.heap.len() > keff {
         cx.oracle_fail(i, "kmv-heap-larger-than-k", format!("|heap|={} k={keff}", o.heap.len()));
     }
     if o.heap != o.set {
-        cx.oracle_fail(i, "kmv-heap-and-set-differ", format!("heap={:?} set={:?}", o.heap, o.set));
+        cx.oracle_fail(i, "kmv-heap-and-set-differ", format!("heap={:?} set={:?}", o.heap.len(), o.set.len()));
     }
     if o.heap != want {
-        cx.oracle_fail(i, "kmv-kept-ranks-not-k-smallest-distinct", format!("heap={:?} want={:?}", o.heap, want));
+        let j = o.heap.iter().zip(&want).position(|(a, b)| a != b).unwrap_or(o.heap.len().min(want.len()));
+        cx.oracle_fail(i, "kmv-kept-ranks-not-k-smallest-distinct", format!("|heap|={} |want|={} first difference at {j}: {:?} vs {:?}", o.heap.len(), want.len(), o.heap.get(j), want.get(j)));
     }
     match &o.est {
         Err(e) => cx.oracle_fail(i, "kmv-panic", e.clone()),
@@ -384,9 +492,16 @@ fn one_kmv(cx: &mut Ctx, k: usize, raw: bool, tree: &Tree, ranks: &[f64]) {
                     cx.oracle_fail(i, "kmv-estimate-not-(k-1)/r_k", format!("est={est:?} want={wantest:?}"));
                 }
             }
+            // exact in terms of distinct VALUES (the property's wording) needs the hash to be injective on them
+            if let KIn::Values(vals) = input {
+                let mut dv: Vec<u64> = vals.to_vec();
+                dv.sort(); dv.dedup();
+                if dv.len() != d { cx.count(COLLISION_KEY); }
+                else if d < keff && *est != dv.len() as f64 { cx.oracle_fail(i, "kmv-not-exact-below-k", format!("distinct values={} k={keff} est={est:?}", dv.len())); }
+            }
             // independent of duplicates, order, partitioning: same as the sorted distinct single-leaf run
             let (alld, _) = kmv_reference(ranks, usize::MAX);
-            if let Ok(o2) = real_kmv(k, raw, &Tree::L(alld.len()), &alld) {
+            if let Ok(o2) = real_kmv(k, raw, &Tree::L(alld.len()), KIn::Ranks(&alld)) {
                 match o2.est {
                     Ok(e2) if e2 == *est || (e2.is_nan() && est.is_nan()) => {}
                     other => cx.oracle_fail(i, "kmv-depends-on-order-duplicates-or-partitioning", format!("est={est:?}, sorted distinct single run={other:?}")),
@@ -414,11 +529,47 @@ enum Mode { Seq, Par(usize) }
 impl Mode { fn chunks(self, len: usize) -> Vec<usize> { match self { Mode::Seq => vec![len], Mode::Par(p) => engine_chunks(len, p) } } }
 
 fn collect<T: ironbeam::RFBound>(pc: ironbeam::PCollection<T>, mode: Mode) -> Result<Vec<T>, String> {
-    match guarded(|| match mode { Mode::Seq => pc.collect_seq(), Mode::Par(p) => pc.collect_par(Some(4), Some(p)) }) {
+    match guarded(|| match mode { Mode::Seq => pc.collect_seq(), Mode::Par(p) => pc.collect_par(Some([4usize, 1, 2, 8][p % 4]), Some(p)) }) {
         Ok(Ok(v)) => Ok(v),
         Ok(Err(e)) => Err(format!("ERR {e}")),
         Err(e) => Err(format!("PANIC {e}")),
     }
+}
+
+/// Merge trees a correct engine may use over the per-partition leaves (sizes in source order): the documented one
+/// first (today: left fold; keyed merges start from an empty accumulator), then other association orders, fan-ins and
+/// leaf kinds. A pipeline answer is accepted as "produced by the accumulator code" if ANY of them reproduces it bit
+/// for bit — the property does not prescribe the engine's merge tree, so a refactor inside this family is no alarm.
+fn admissible_trees(documented: &Tree, sizes: &[usize], built: bool) -> Vec<Tree> {
+    let mut out = vec![documented.clone()];
+    let n: usize = sizes.iter().sum();
+    for b in [built, !built] {
+        let leaf = |c: usize| if b { Tree::B(c) } else { Tree::L(c) };
+        let leaves: Vec<Tree> = sizes.iter().map(|c| leaf(*c)).collect();
+        if leaves.is_empty() { out.push(leaf(0)); continue; }
+        // left fold, left fold from an empty accumulator
+        out.push(fold_tree(leaves.clone()));
+        let mut from_empty = vec![Tree::L(0)]; from_empty.extend(leaves.clone());
+        out.push(fold_tree(from_empty));
+        // right fold
+        let mut it = leaves.clone().into_iter().rev();
+        let mut acc = it.next().unwrap();
+        for l in it { acc = Tree::M(Box::new(l), Box::new(acc)); }
+        out.push(acc);
+        // rounds with fan-in f (each group left-folded)
+        for f in [2usize, 3, 4, 8] {
+            let mut level = leaves.clone();
+            while level.len() > 1 {
+                level = level.chunks(f).map(|g| fold_tree(g.to_vec())).collect();
+            }
+            out.push(level.remove(0));
+        }
+        // no partitioning at all
+        out.push(leaf(n));
+    }
+    let mut seen = std::collections::BTreeSet::new();
+    out.retain(|t| seen.insert(t.encode()));
+    out
 }
 
 /// global quantiles: `combine_globally(ApproxQuantiles)` / `combine_globally_lifted` / ApproxMedian
@@ -437,32 +588,45 @@ fn pipe_td_global(cx: &mut Ctx, delta: f64, vals: &[f64], qs: &[f64], mode: Mode
     let chunks = mode.chunks(vals.len());
     let tree = fold_tree(chunks.iter().map(|c| if lifted { Tree::B(*c) } else { Tree::L(*c) }).collect());
     let fin = if median { Fin::Med } else { Fin::Aq };
-    pipe_td_case(cx, delta, fin, &tree, vals, qs, res, &format!("pipe:global{}{}:{mode:?}", if lifted { "-lifted" } else { "" }, if median { "-median" } else { "" }));
+    let trees = admissible_trees(&tree, &chunks, lifted);
+    pipe_td_case(cx, delta, fin, &trees, vals, qs, res, &format!("pipe:global{}{}:{mode:?}", if lifted { "-lifted" } else { "" }, if median { "-median" } else { "" }));
 }
 
-fn pipe_td_case(cx: &mut Ctx, delta: f64, fin: Fin, tree: &Tree, vals: &[f64], qs: &[f64], res: Result<Vec<f64>, String>, label: &str) {
-    let req = format!("TDIGEST {} {} q {} {} {} -", hx(delta), fin.s(), tree.encode(), hxs(vals), hxs(qs));
+/// `trees[0]` = the documented merge tree, the rest = other admissible ones (tried only if the first does not
+/// reproduce the pipeline's answer)
+fn pipe_td_case(cx: &mut Ctx, delta: f64, fin: Fin, trees: &[Tree], vals: &[f64], qs: &[f64], res: Result<Vec<f64>, String>, label: &str) {
     let qs_eff: Vec<f64> = if fin == Fin::Med { vec![0.5] } else { qs.to_vec() };
     cx.count(label.split(':').take(2).collect::<Vec<_>>().join(":").as_str());
     match res {
         Ok(est) => {
             // the digest the pipeline queried is not observable; re-derive it by running the real accumulator
-            // code in the merge tree the engine is documented to use, and accept its centroids as evidence only
-            // if that reproduces the pipeline's answer bit for bit
-            let rebuilt = real_td(delta, fin, tree, vals, qs, &[]).ok();
-            let queried = rebuilt.and_then(|r| {
-                let same = r.est.len() == est.len() && r.est.iter().zip(&est).all(|(a, b)| a.to_bits() == b.to_bits() || (a.is_nan() && b.is_nan()));
-                if same { r.queried } else { None }
-            });
-            if queried.is_none() { cx.count("tdigest:pipeline answer not reproduced by its merge tree"); }
-            let o = TdOut { est, state: (vec![], 0.0, 0.0, 0.0), cdfs: vec![], queried };
-            let i = cx.case(req, td_answer(&o, &qs_eff, false), vals.len() >= 2);
-            if o.queried.is_none() {
-                cx.oracle_fail(i, "tdigest-pipeline-differs-from-its-merge-tree", format!("{label}: est={:?}", o.est));
+            // code in an admissible merge tree and accept its centroids as evidence only if that reproduces the
+            // pipeline's answer bit for bit. The request names the tree that did, so the Lean model is asked
+            // about the same tree.
+            let mut found: Option<(usize, St)> = None;
+            for (ti, t) in trees.iter().enumerate() {
+                if let Ok(r) = real_td(delta, fin, t, vals, qs, &[]) {
+                    let same = r.est.len() == est.len() && r.est.iter().zip(&est).all(|(a, b)| a.to_bits() == b.to_bits() || (a.is_nan() && b.is_nan()));
+                    if same { if let Some(q) = r.queried { found = Some((ti, q)); break; } }
+                }
             }
-            td_oracle(cx, i, delta, fin, tree, vals, qs, &o, false);
+            let ti = found.as_ref().map_or(0, |f| f.0);
+            match &found {
+                Some((0, _)) => {}
+                Some(_) => cx.count("tdigest:pipeline answer reproduced by an admissible merge tree other than the documented one"),
+                // Not an oracle failure (no clause of the property names the engine's merge tree): the request below
+                // carries the documented tree with the pipeline's answer, so this surfaces as a model/implementation
+                // disagreement (the correspondence for pipelines no longer holds and has to be re-established).
+                None => cx.count("tdigest:pipeline answer not reproduced by any admissible merge tree"),
+            }
+            let tree = &trees[ti];
+            let req = format!("TDIGEST {} {} q {} {} {} -", hx(delta), fin.s(), tree.encode(), hxs(vals), hxs(qs));
+            let o = TdOut { est, state: (vec![], 0.0, 0.0, 0.0), cdfs: vec![], queried: found.map(|f| f.1) };
+            let i = cx.case(req, td_answer(&o, &qs_eff, false), vals.len() >= 2);
+            td_oracle(cx, i, delta, fin, tree, vals, &ones(vals.len()), qs, &o, false);
         }
         Err(e) => {
+            let req = format!("TDIGEST {} {} q {} {} {} -", hx(delta), fin.s(), trees[0].encode(), hxs(vals), hxs(qs));
             let i = cx.case(req, e.split(' ').next().unwrap_or("PANIC").to_string(), true);
             cx.oracle_fail(i, "tdigest-pipeline-failed", format!("{label}: {e}"));
         }
@@ -504,15 +668,17 @@ fn pipe_td_keyed(cx: &mut Ctx, delta: f64, rows: &[(u32, f64)], qs: &[f64], mode
             for (k, est) in out {
                 // values of this key per source chunk, in order; merge starts from an empty accumulator
                 let mut leaves = vec![Tree::L(0)];
+                let mut sizes = vec![];
                 let mut vals = vec![];
                 let mut off = 0;
                 for c in &chunks {
                     let part: Vec<f64> = rows[off..off + c].iter().filter(|r| r.0 == k).map(|r| r.1).collect();
                     off += c;
-                    if !part.is_empty() { leaves.push(Tree::L(part.len())); vals.extend(part); }
+                    if !part.is_empty() { leaves.push(Tree::L(part.len())); sizes.push(part.len()); vals.extend(part); }
                 }
                 let tree = fold_tree(leaves);
-                pipe_td_case(cx, delta, fin, &tree, &vals, qs, Ok(est), &label);
+                let trees = admissible_trees(&tree, &sizes, false);
+                pipe_td_case(cx, delta, fin, &trees, &vals, qs, Ok(est), &label);
             }
         }
     }
@@ -528,7 +694,7 @@ fn pipe_kmv_case(cx: &mut Ctx, k: usize, tree: &Tree, values: &[u64], res: Resul
             let mut d: Vec<u64> = values.to_vec();
             d.sort(); d.dedup();
             let (dr, dn) = kmv_reference(&ranks, usize::MAX);
-            if dn != d.len() { cx.count("kmv:rank collision among inputs (hash not injective)"); return; }
+            if dn != d.len() { cx.count(COLLISION_KEY); return; }
             let keff = k.max(4);
             if d.len() < keff {
                 if est != d.len() as f64 { cx.oracle_fail(i, "kmv-not-exact-below-k", format!("{label}: distinct={} k={keff} est={est:?}", d.len())); }
@@ -544,17 +710,23 @@ fn pipe_kmv_case(cx: &mut Ctx, k: usize, tree: &Tree, values: &[u64], res: Resul
     }
 }
 
-fn pipe_kmv_global(cx: &mut Ctx, k: usize, values: &[u64], mode: Mode) {
+fn pipe_kmv_global(cx: &mut Ctx, k: usize, values: &[u64], mode: Mode, lifted: bool) {
     let p = Pipeline::default();
-    let res = collect(from_vec(&p, values.to_vec()).approx_distinct_count(k), mode).and_then(|v| v.first().copied().ok_or_else(|| "ERR empty".to_string()));
-    let tree = fold_tree(mode.chunks(values.len()).iter().map(|c| Tree::L(*c)).collect());
-    pipe_kmv_case(cx, k, &tree, values, res, &format!("pipe:kmv-global:{mode:?}"));
+    let src = from_vec(&p, values.to_vec());
+    let pc = if lifted { src.combine_globally_lifted(KMVApproxDistinctCount::<u64>::new(k), None) } else { src.approx_distinct_count(k) };
+    let res = collect(pc, mode).and_then(|v| v.first().copied().ok_or_else(|| "ERR empty".to_string()));
+    // (the estimate depends on the members of the input only — the tree named in the request is the documented
+    // one, but any other gives the same answer: Lean `kmv_independent`)
+    let tree = fold_tree(mode.chunks(values.len()).iter().map(|c| if lifted { Tree::B(*c) } else { Tree::L(*c) }).collect());
+    pipe_kmv_case(cx, k, &tree, values, res, &format!("pipe:kmv-global{}:{mode:?}", if lifted { "-lifted" } else { "" }));
 }
 
-fn pipe_kmv_keyed(cx: &mut Ctx, k: usize, rows: &[(u32, u64)], mode: Mode) {
+fn pipe_kmv_keyed(cx: &mut Ctx, k: usize, rows: &[(u32, u64)], mode: Mode, via_gbk: bool) {
     let p = Pipeline::default();
-    let res = collect(from_vec(&p, rows.to_vec()).approx_distinct_count_per_key(k), mode);
-    let label = format!("pipe:kmv-keyed:{mode:?}");
+    let src = from_vec(&p, rows.to_vec());
+    let pc = if via_gbk { src.group_by_key().combine_values_lifted(KMVApproxDistinctCount::<u64>::new(k)) } else { src.approx_distinct_count_per_key(k) };
+    let res = collect(pc, mode);
+    let label = format!("pipe:kmv-keyed{}:{mode:?}", if via_gbk { "-gbk-lifted" } else { "" });
     let chunks = mode.chunks(rows.len());
     let mut keys: Vec<u32> = rows.iter().map(|r| r.0).collect();
     keys.sort(); keys.dedup();
@@ -623,6 +795,30 @@ fn gen_values(rng: &mut Rng, n: usize) -> Vec<f64> {
     v
 }
 
+/// weights for `add_weighted`: the ordinary ones are multiples of 1/4 (their sums are exact, so the total weight is
+/// checked exactly), the degenerate ones must be ignored, the exotic ones exercise the ε-tests of `quantile`
+const W_ORD: [f64; 5] = [0.25, 0.5, 1.0, 2.0, 3.0];
+const W_DEG: [f64; 7] = [0.0, -0.0, -1.0, f64::NAN, f64::INFINITY, f64::NEG_INFINITY, -0.25];
+const W_EXO: [f64; 8] = [1e-17, 8.673617379884035e-19, 5e-324, 1e300, 1e-300, 0.1, 0.3, 7.5];
+fn gen_weights(rng: &mut Rng, n: usize) -> Vec<f64> {
+    let style = rng.below(6);
+    (0..n).map(|_| match style {
+        0 | 1 => *rng.pick(&W_ORD),
+        2 => if rng.chance(1, 4) { *rng.pick(&W_DEG) } else { *rng.pick(&W_ORD) },
+        3 => 0.5,
+        4 => if rng.chance(1, 3) { *rng.pick(&W_EXO) } else { *rng.pick(&W_ORD) },
+        _ => *rng.pick(&[0.25, 0.25, 0.5, 1.0]),
+    }).collect()
+}
+/// turn some (or all) element-wise leaves into `add_weighted` leaves
+fn weighted_tree(rng: &mut Rng, t: &Tree, all: bool) -> Tree {
+    match t {
+        Tree::L(n) => if all || rng.chance(2, 3) { Tree::W(*n) } else { Tree::L(*n) },
+        Tree::M(l, r) => Tree::M(Box::new(weighted_tree(rng, l, all)), Box::new(weighted_tree(rng, r, all))),
+        other => other.clone(),
+    }
+}
+
 fn gen_delta(rng: &mut Rng) -> f64 {
     match rng.below(10) {
         0 => 1.0, 1 => 2.0, 2 => 5.0, 3 => 20.0, 4 => 100.0, 5 => 100.0, 6 => 3.5, 7 => 10.0, 8 => 50.0,
@@ -670,24 +866,31 @@ fn rank_error(sorted: &[f64], est: f64, q: f64) -> f64 {
 }
 
 /// Empirical rank-error bounds per input distribution (uniform, exponential, cubic = extremely dense around the
-/// median, 50 distinct values with ties), for δ ≥ 100, n ≥ 5000, 1..64 partitions. Observed worst over seeds 1..6
-/// (thorough): 0.0010, 0.0008, 0.0136, 0.0087; quick (n = 20000): 0.0022, 0.0009. The documented accuracy is
+/// median, 50 distinct values with ties), for δ ≥ 100, n ≥ 5000, 1..64 partitions. The documented accuracy is
 /// "typically within 1-2%" (`ApproxQuantiles`), which only the cubic distribution comes close to.
-const RANK_BOUND: [f64; 4] = [0.005, 0.005, 0.02, 0.015];
+/// The inputs of this block come from FIXED internal seeds (nothing here depends on `VERIF_SEED`): it is a
+/// regression measurement with head-room, identical on every run of an unchanged tree, not a statistical test
+/// whose verdict depends on the draw.
+const RANK_BOUND: [f64; 4] = [0.01, 0.01, 0.02, 0.02];
+const EMPIRICAL_SEED: u64 = 0x0C15_E3D1_7A2B_0001;
+
+fn unit(rng: &mut Rng) -> f64 { (rng.next_u64() >> 11) as f64 / (1u64 << 53) as f64 }
 
 fn empirical(cx: &mut Ctx) {
     let thorough = cx.tier != Tier::Quick;
+    let mut rng = Rng(EMPIRICAL_SEED);
     let nmax = if thorough { 100_000 } else { 20_000 };
     let qs = vec![0.01, 0.05, 0.1, 0.25, 0.5, 0.75, 0.9, 0.95, 0.99];
     let mut worst: f64 = 0.0;
     let mut worst_by_dist = [0.0f64; 4];
+    let mut worst_by_path = std::collections::BTreeMap::<&'static str, f64>::new();
     let dists = if thorough { 4 } else { 2 };
     for dist in 0..dists {
         // (the digest keeps ~n/(δ/8) centroids, so a run costs O(n²/δ): only two distributions at full size)
         let n = if dist < 2 { nmax } else { nmax / 4 };
         for order in 0..3 {
             let mut vals: Vec<f64> = (0..n).map(|_| {
-                let u = (cx.rng.next_u64() >> 11) as f64 / (1u64 << 53) as f64;
+                let u = unit(&mut rng);
                 match dist { 0 => u, 1 => -(1.0 - u).ln(), 2 => (u - 0.5).powi(3) * 1e6, _ => (u * 50.0).floor() }
             }).collect();
             match order { 0 => {}, 1 => vals.sort_by(f64::total_cmp), _ => { vals.sort_by(f64::total_cmp); vals.reverse(); } }
@@ -695,52 +898,77 @@ fn empirical(cx: &mut Ctx) {
             sorted.sort_by(f64::total_cmp);
             for &delta in if thorough { &[100.0, 500.0][..] } else { &[100.0][..] } {
                 for &parts in if !thorough || delta == 100.0 { &[1usize, 7, 64][..] } else if order == 0 { &[16usize][..] } else { &[][..] } {
-                    let p = Pipeline::default();
-                    let pc = from_vec(&p, vals.clone()).combine_globally(ApproxQuantiles::<f64>::new(qs.clone(), delta), None);
                     let mode = if parts == 1 { Mode::Seq } else { Mode::Par(parts) };
-                    let est: Vec<f64> = match collect(pc, mode) { Ok(v) => v.into_iter().flatten().collect(), Err(_) => continue };
-                    for (q, e) in qs.iter().zip(&est) {
-                        let err = rank_error(&sorted, *e, *q);
-                        worst = worst.max(err);
-                        worst_by_dist[dist] = worst_by_dist[dist].max(err);
-                        cx.count("empirical:tdigest rank-error evaluations");
-                        if err > RANK_BOUND[dist] {
+                    // every entry point of observe_at: global, global lifted, per key (the key's values = the whole input,
+                    // interleaved with a second key), per key through group_by_key + lifted
+                    let paths: &[&'static str] = if order == 0 { &["global", "global-lifted", "keyed", "keyed-gbk-lifted"] } else { &["global"] };
+                    for &path in paths {
+                        if path != "global" && (delta != 100.0 || (thorough && parts == 7)) { continue; }
+                        let c = ApproxQuantiles::<f64>::new(qs.clone(), delta);
+                        let p = Pipeline::default();
+                        let est: Vec<f64> = match path {
+                            "global" => match collect(from_vec(&p, vals.clone()).combine_globally(c, None), mode) { Ok(v) => v.into_iter().flatten().collect(), Err(_) => continue },
+                            "global-lifted" => match collect(from_vec(&p, vals.clone()).combine_globally_lifted(c, None), mode) { Ok(v) => v.into_iter().flatten().collect(), Err(_) => continue },
+                            _ => {
+                                let rows: Vec<(u32, f64)> = vals.iter().enumerate().flat_map(|(j, v)| if j % 3 == 0 { vec![(1u32, *v), (2u32, -*v)] } else { vec![(1u32, *v)] }).collect();
+                                let src = from_vec(&p, rows);
+                                let pc = if path == "keyed" { src.combine_values(c) } else { src.group_by_key().combine_values_lifted(c) };
+                                match collect(pc, mode) { Ok(v) => v.into_iter().find(|r| r.0 == 1).map(|r| r.1).unwrap_or_default(), Err(_) => continue }
+                            }
+                        };
+                        if est.len() != qs.len() {
                             let i = cx.case(format!("TDIGEST {} aq q L0 - - -", hx(delta)), "Q".into(), false);
-                            cx.oracle_fail(i, "tdigest-rank-error-above-bound(empirical)", format!("dist={dist} order={order} n={n} δ={delta} parts={parts} q={q} est={e} rank error={err:.4} bound={}", RANK_BOUND[dist]));
+                            cx.oracle_fail(i, "tdigest-pipeline-failed", format!("empirical block: path={path} returned {} estimates for {} quantiles", est.len(), qs.len()));
+                            continue;
+                        }
+                        for (q, e) in qs.iter().zip(&est) {
+                            let err = rank_error(&sorted, *e, *q);
+                            worst = worst.max(err);
+                            worst_by_dist[dist] = worst_by_dist[dist].max(err);
+                            let w = worst_by_path.entry(path).or_insert(0.0);
+                            *w = w.max(err);
+                            cx.count("empirical:tdigest rank-error evaluations");
+                            cx.count(&format!("empirical:tdigest rank-error evaluations, path={path}"));
+                            if err > RANK_BOUND[dist] {
+                                let i = cx.case(format!("TDIGEST {} aq q L0 - - -", hx(delta)), "Q".into(), false);
+                                cx.oracle_fail(i, "tdigest-rank-error-above-bound(empirical)", format!("path={path} dist={dist} order={order} n={n} δ={delta} parts={parts} q={q} est={e} rank error={err:.4} bound={}", RANK_BOUND[dist]));
+                            }
                         }
                     }
                 }
             }
         }
     }
-    cx.notes.push(format!("empirical (not a theorem): worst t-digest rank error by distribution (uniform, exponential, cubic, 50 ties): {worst_by_dist:.5?}"));
+    cx.notes.push(format!("empirical (not a theorem; fixed internal seed, independent of VERIF_SEED): worst t-digest rank error by distribution (uniform, exponential, cubic, 50 ties): {worst_by_dist:.5?}; by entry point: {worst_by_path:.5?}"));
     cx.notes.push(format!("empirical (not a theorem): worst t-digest rank error {worst:.5} over n≤{nmax} inputs, δ≥100, 1..64 partitions (bounds checked per distribution: {RANK_BOUND:?})"));
-    // KMV error band: |est/d - 1| ≤ 4/sqrt(k) for d ≫ k
+    // KMV error band: |est/d - 1| ≤ 5/sqrt(k) for d ≫ k  (fixed draws as well)
     let seeds = if thorough { 200 } else { 40 };
     let mut worst_rel: f64 = 0.0;
     let mut outside = 0;
     for s in 0..seeds {
-        let k = *cx.rng.pick(&[64usize, 256, 1024]);
-        let d = k * (8 + cx.rng.below(24));
-        let base = cx.rng.next_u64();
+        let k = [64usize, 256, 1024][s % 3];
+        let d = k * (8 + rng.below(24));
+        let base = rng.next_u64();
         let mut values: Vec<u64> = (0..d as u64).map(|i| base.wrapping_add(i.wrapping_mul(0x9E37_79B9))).collect();
-        let dups: Vec<u64> = (0..d / 2).map(|_| values[cx.rng.below(d)]).collect();
+        let dups: Vec<u64> = (0..d / 2).map(|_| values[rng.below(d)]).collect();
         values.extend(dups);
-        for i in (1..values.len()).rev() { let j = cx.rng.below(i + 1); values.swap(i, j); }
+        for i in (1..values.len()).rev() { let j = rng.below(i + 1); values.swap(i, j); }
         let p = Pipeline::default();
-        let mode = if s % 2 == 0 { Mode::Seq } else { Mode::Par(1 + cx.rng.below(16)) };
-        if let Ok(v) = collect(from_vec(&p, values).approx_distinct_count(k), mode) {
+        let mode = if s % 2 == 0 { Mode::Seq } else { Mode::Par(1 + rng.below(16)) };
+        let src = from_vec(&p, values);
+        let pc = if s % 4 >= 2 { src.combine_globally_lifted(KMVApproxDistinctCount::<u64>::new(k), None) } else { src.approx_distinct_count(k) };
+        if let Ok(v) = collect(pc, mode) {
             let rel = (v[0] / d as f64 - 1.0).abs();
             worst_rel = worst_rel.max(rel * (k as f64).sqrt());
             cx.count("empirical:kmv error-band evaluations");
-            if rel > 4.0 / (k as f64).sqrt() {
+            if rel > 5.0 / (k as f64).sqrt() {
                 outside += 1;
                 let i = cx.case(format!("KMV {k} new est L0 -"), ft(0.0), false);
-                cx.oracle_fail(i, "kmv-estimate-outside-4/sqrt(k)(empirical)", format!("k={k} d={d} est={} rel={rel:.4}", v[0]));
+                cx.oracle_fail(i, "kmv-estimate-outside-5/sqrt(k)(empirical)", format!("k={k} d={d} est={} rel={rel:.4}", v[0]));
             }
         }
     }
-    cx.notes.push(format!("empirical (not a theorem): worst KMV relative error = {worst_rel:.3}/sqrt(k) over {seeds} seeds, d in 8k..32k (band checked: 4/sqrt(k)); outside: {outside}"));
+    cx.notes.push(format!("empirical (not a theorem; fixed internal seed, independent of VERIF_SEED): worst KMV relative error = {worst_rel:.3}/sqrt(k) over {seeds} fixed draws, d in 8k..32k (band checked: 5/sqrt(k)); outside: {outside}"));
 }
 
 /* ------------------------------------------------------------------ run */
@@ -798,7 +1026,47 @@ pub fn run(cx: &mut Ctx) {
     one_td(cx, 100.0, Fin::Raw, &Tree::L(100), &(1..=100).rev().map(f64::from).collect::<Vec<_>>(), &grid(20), &[25.0, 50.0]);
     // inexact decimals with ties, small δ: the merged mean of equal values is rounded
     one_td(cx, 2.0, Fin::Aq, &Tree::L(9), &[0.1, 0.1, 0.1, 0.1, 0.1, 0.1, 0.1, 0.3, 0.3], &grid(100), &[0.1]);
+    // `add_weighted` (public): two half-weight points merge into ONE centroid whose min < max — q = 1 must still answer
+    // max (before the fix the single-centroid short cut of `quantile` answered min); a zero / negative / NaN / infinite
+    // weight is not an input (before the fix: `is_empty()` with data, `finish` NaN while `quantile` answered 3)
+    let m = |l: Tree, r: Tree| Tree::M(Box::new(l), Box::new(r));
+    one_tdw(cx, 100.0, Fin::Raw, &m(Tree::L(0), Tree::W(2)), &[1.0, 2.0], &[0.5, 0.5], &[0.0, 0.5, 0.999, 1.0, 2.0], &[1.0, 1.5, 2.0]);
+    one_tdw(cx, 100.0, Fin::Aq, &Tree::W(2), &[1.0, 2.0], &[0.5, 0.5], &[0.0, 0.5, 1.0], &[]);
+    one_tdw(cx, 100.0, Fin::Med, &Tree::W(2), &[1.0, 2.0], &[0.25, 0.25], &[], &[]);
+    one_tdw(cx, 100.0, Fin::Raw, &Tree::W(1), &[3.0], &[0.0], &[0.0, 0.5, 1.0], &[3.0]);
+    one_tdw(cx, 100.0, Fin::Aq, &Tree::W(1), &[3.0], &[0.0], &[0.0, 0.5, 1.0], &[]);
+    one_tdw(cx, 100.0, Fin::Raw, &Tree::W(3), &[3.0, 5.0, 4.0], &[0.0, 1.0, -1.0], &[0.0, 0.5, 1.0], &[4.0]);
+    one_tdw(cx, 100.0, Fin::Raw, &Tree::W(3), &[3.0, 5.0, 4.0], &[1.0, f64::NAN, 2.0], &grid(20), &[4.0]);
+    one_tdw(cx, 100.0, Fin::Aq, &m(Tree::W(2), Tree::L(2)), &[3.0, 5.0, 4.0, 1.0], &[f64::INFINITY, 0.5, 9.0, 9.0], &grid(20), &[]);
+    one_tdw(cx, 100.0, Fin::Raw, &m(Tree::W(2), Tree::W(1)), &[1.0, 2.0, 7.0], &[-1.0, 0.0, f64::NEG_INFINITY], &[0.0, 0.5, 1.0], &[1.0]);
+    one_tdw(cx, 2.0, Fin::Aq, &Tree::W(6), &[1.0, 2.0, 3.0, 4.0, 5.0, 6.0], &[0.25, 0.5, 3.0, 0.25, 2.0, 0.5], &grid(100), &[2.5]);
+    // weights below ε: the `(next − cum).abs() < ε` exit of the walk
+    one_tdw(cx, 100.0, Fin::Raw, &Tree::W(4), &[1.0, 2.0, 3.0, 4.0], &[1e-17, 1.0, 5e-324, 1e-17], &grid(20), &[2.5]);
+    // the convenience constructors are `new` with a documented q list
+    for (name, c, want) in [
+        ("five_number_summary", ApproxQuantiles::<f64>::five_number_summary(100.0), vec![0.0, 0.25, 0.5, 0.75, 1.0]),
+        ("percentiles", ApproxQuantiles::<f64>::percentiles(100.0), vec![0.01, 0.05, 0.10, 0.25, 0.50, 0.75, 0.90, 0.95, 0.99]),
+        ("median", ApproxQuantiles::<f64>::median(100.0), vec![0.5]),
+    ] {
+        let vals: Vec<f64> = (0..300).map(|i| ((i * 7919) % 307) as f64 * 0.5).collect();
+        let got = guarded(|| { let mut acc = c.create(); for v in &vals { c.add_input(&mut acc, *v); } c.finish(acc) });
+        let req = format!("TDIGEST {} aq q L{} {} {} -", hx(100.0), vals.len(), hxs(&vals), hxs(&want));
+        match got {
+            Ok(est) => {
+                let o = TdOut { est, state: (vec![], 0.0, 0.0, 0.0), cdfs: vec![], queried: None };
+                let i = cx.case(req, td_answer(&o, &want, false), true);
+                let same = real_td(100.0, Fin::Aq, &Tree::L(vals.len()), &vals, &want, &[]).map(|r| r.est.len() == o.est.len() && r.est.iter().zip(&o.est).all(|(a, b)| a.to_bits() == b.to_bits())).unwrap_or(false);
+                if !same { cx.oracle_fail(i, "approxquantiles-convenience-constructor-differs-from-new", format!("{name}: est={:?}", o.est)); }
+                cx.count("tdigest:convenience constructors");
+            }
+            Err(e) => { let i = cx.case(req, "PANIC".into(), true); cx.oracle_fail(i, "tdigest-panic", e); }
+        }
+    }
     one_kmv(cx, 4, false, &Tree::L(6), &[0.5, 0.25, 0.5, 0.75, 0.125, 0.25]);
+    // the real `add_input` / `build_from_group` on values (they hash the values themselves)
+    one_kmv_in(cx, 4, false, &m(Tree::B(4), Tree::L(3)), KIn::Values(&[7, 9, 7, 11, 13, 9, 15]));
+    one_kmv_in(cx, 2, true, &m(Tree::B(5), Tree::B(2)), KIn::Values(&[1, 2, 3, 4, 5, 6, 1]));
+    one_kmv_in(cx, 5000, false, &Tree::B(3), KIn::Values(&[1, 2, 2]));
     one_kmv(cx, 2, true, &Tree::M(Box::new(Tree::L(3)), Box::new(Tree::L(3))), &[0.5, 0.25, 0.75, 0.125, 0.25, 0.9]);
     one_kmv(cx, 0, true, &Tree::L(2), &[0.5, 0.25]);
 
@@ -806,7 +1074,8 @@ pub fn run(cx: &mut Ctx) {
     /* (2) small-scope exhaustive */
     {
         // t-digest: every sequence of length ≤ n over {1, 2, 2.5, NaN}, every ≤3-leaf merge tree, δ ∈ {1, 100}, 21-point grid
-        let n = cx.budget(3, 4);
+        // (NOT `cx.budget`: in the search tier that multiplies by 10, and this is an exponent)
+        let n = if cx.tier == Tier::Quick { 3 } else { 4 };
         let alpha = [1.0, 2.0, 2.5, f64::NAN];
         let mut seqs: Vec<Vec<f64>> = vec![vec![]];
         let mut frontier: Vec<Vec<f64>> = vec![vec![]];
@@ -828,7 +1097,7 @@ pub fn run(cx: &mut Ctx) {
         }
         cx.exhaustive_blocks.push(format!("t-digest: all value sequences of length <= {n} over {{1, 2, 2.5, NaN}} x all merge trees with <= 3 leaves (element-wise and build_from_group leaves, both association orders) x δ in {{1,100}} on a 21-point q grid ({cnt} digests)"));
         // KMV: every rank sequence of length ≤ m over 4 ranks, k ∈ {1,2,3}, every ≤3-leaf tree
-        let m = cx.budget(4, 5);
+        let m = if cx.tier == Tier::Quick { 4 } else { 5 };
         let ralpha = [0.125, 0.25, 0.5, 0.75];
         let mut rseqs: Vec<Vec<f64>> = vec![vec![]];
         let mut frontier: Vec<Vec<f64>> = vec![vec![]];
@@ -849,6 +1118,38 @@ pub fn run(cx: &mut Ctx) {
             }
         }
         cx.exhaustive_blocks.push(format!("KMV: all rank sequences of length <= {m} over 4 ranks x all merge trees with <= 3 leaves x k in {{1,2,3}} ({cnt} accumulators)"));
+    }
+
+    /* (2a) small-scope exhaustive, `add_weighted` */
+    {
+        let thorough = cx.tier != Tier::Quick;
+        let full: Vec<(f64, f64)> = {
+            let mut a = vec![];
+            for v in [1.0, 2.0, 2.5] { for w in [0.25, 0.5, 1.0, 3.0] { a.push((v, w)); } }
+            a.extend([(1.0, 0.0), (2.0, -1.0), (2.5, f64::NAN), (f64::NAN, 0.5), (2.0, f64::INFINITY)]);
+            a
+        };
+        let small: Vec<(f64, f64)> = vec![(1.0, 0.5), (2.0, 0.5), (2.5, 0.25), (2.0, 1.0), (1.0, 3.0), (1.0, 0.0), (2.5, -1.0), (2.0, f64::NAN)];
+        let mut seqs: Vec<Vec<(f64, f64)>> = vec![vec![]];
+        for a in &full { seqs.push(vec![*a]); for b in &full { seqs.push(vec![*a, *b]); } }
+        let three = if thorough { &full } else { &small };
+        for a in three { for b in three { for c in three { seqs.push(vec![*a, *b, *c]); } } }
+        let g = grid(20);
+        let mut cnt = 0;
+        for sq in &seqs {
+            let n = sq.len();
+            let vals: Vec<f64> = sq.iter().map(|p| p.0).collect();
+            let wts: Vec<f64> = sq.iter().map(|p| p.1).collect();
+            let mut trees = vec![Tree::W(n), m(Tree::L(0), Tree::W(n))];
+            for a in 1..n { trees.push(m(Tree::W(a), Tree::W(n - a))); trees.push(m(Tree::W(a), Tree::L(n - a))); }
+            for t in trees {
+                for delta in [1.0, 100.0] {
+                    one_tdw(cx, delta, if cnt % 5 == 0 { Fin::Raw } else { Fin::Aq }, &t, &vals, &wts, &g, &[1.5]);
+                    cnt += 1;
+                }
+            }
+        }
+        cx.exhaustive_blocks.push(format!("t-digest, add_weighted: all (value, weight) sequences of length <= 2 over {{1, 2, 2.5}} x {{0.25, 0.5, 1, 3}} plus 5 pairs that must be ignored (weight 0, -1, NaN, inf; value NaN), of length 3 over {} x W(n) / merged into an empty digest / every 2-way split into weighted+weighted and weighted+unit leaves x δ in {{1,100}} on a 21-point q grid ({cnt} digests)", if thorough { "the same 17 pairs" } else { "8 of them" }));
     }
 
     /* (2b) extreme compression settings at sizes that cross their compress thresholds, unusual q values */
@@ -895,7 +1196,16 @@ pub fn run(cx: &mut Ctx) {
         let qs = gen_qs(&mut cx.rng);
         let cdfs = gen_cdfs(&mut cx.rng, &vals);
         let fin = match cx.rng.below(5) { 0 => Fin::Raw, 1 => Fin::Med, _ => Fin::Aq };
-        one_td(cx, delta, fin, &tree, &vals, &qs, &cdfs);
+        if cx.rng.chance(1, 4) {
+            // direct use of the public `TDigest::add_weighted`, alone or merged with unit-weight accumulators
+            let all = cx.rng.chance(1, 2);
+            let wt = weighted_tree(&mut cx.rng, &tree, all);
+            let wts = gen_weights(&mut cx.rng, n);
+            let fin = if cx.rng.chance(1, 2) { Fin::Raw } else { fin };
+            one_tdw(cx, delta, fin, &wt, &vals, &wts, &qs, &cdfs);
+        } else {
+            one_td(cx, delta, fin, &tree, &vals, &qs, &cdfs);
+        }
     }
     let rounds = cx.budget(3000, 20000);
     for _ in 0..rounds {
@@ -905,8 +1215,53 @@ pub fn run(cx: &mut Ctx) {
         let dom = 1 + cx.rng.below(2 * k.max(4) + 4);
         let mut ranks = gen_ranks(&mut cx.rng, n, dom);
         if cx.rng.chance(1, 6) { for r in ranks.iter_mut() { *r = (*r * 8.0).floor() / 8.0; } } // coarse ranks: many ties, incl. 0.0
-        let tree = random_tree(&mut cx.rng, n, 4, false);
-        one_kmv(cx, k, raw, &tree, &ranks);
+        if cx.rng.chance(1, 3) {
+            // values through the real `add_input` / `build_from_group`
+            let values: Vec<u64> = (0..n).map(|_| cx.rng.below(dom) as u64 * 7919 + 13).collect();
+            let tree = random_tree(&mut cx.rng, n, 4, true);
+            one_kmv_in(cx, k, raw, &tree, KIn::Values(&values));
+        } else {
+            let tree = random_tree(&mut cx.rng, n, 4, false);
+            one_kmv(cx, k, raw, &tree, &ranks);
+        }
+    }
+    /* (3b) KMV at realistic sketch sizes, d around k: exact below k, (k−1)/r_k from k on — deterministic oracles */
+    {
+        let thorough = cx.tier != Tier::Quick;
+        let plan: Vec<(usize, Vec<i64>)> = if thorough {
+            vec![(1000, vec![-300, -2, -1, 0, 1, 2, 500]), (1024, vec![-1, 0, 1, 100]), (1025, vec![-1, 0]), (5000, vec![-1000, -1, 0, 1, 2500])]
+        } else {
+            vec![(1000, vec![-2, -1, 0, 1, 500]), (1025, vec![-1]), (5000, vec![-1, 0])]
+        };
+        let mut cnt = 0;
+        for (k, offs) in plan {
+            for off in offs {
+                let d = (k as i64 + off) as usize;
+                let base = cx.rng.next_u64() >> 8;
+                let distinct: Vec<u64> = (0..d as u64).map(|i| base + i * 0x9E37_79B1).collect();
+                let mut values = distinct.clone();
+                for _ in 0..d / 2 { values.push(distinct[cx.rng.below(d)]); }
+                for i in (1..values.len()).rev() { let j = cx.rng.below(i + 1); values.swap(i, j); }
+                let n = values.len();
+                let a = n / 3 + cx.rng.below(n / 3);
+                let b = cx.rng.below(n - a);
+                // direct: element-wise and build_from_group leaves, two association orders
+                let tree = if cnt % 2 == 0 { m(m(Tree::B(a), Tree::L(b)), Tree::B(n - a - b)) } else { m(Tree::L(a), m(Tree::B(b), Tree::L(n - a - b))) };
+                one_kmv_in(cx, k, false, &tree, KIn::Values(&values));
+                // pipelines: global, global lifted, per key (2 keys; key 1 gets every value), per key via group_by_key + lifted
+                let mode = if cnt % 3 == 0 { Mode::Seq } else { Mode::Par(*cx.rng.pick(&[2usize, 5, 16])) };
+                match cnt % 4 {
+                    0 => pipe_kmv_global(cx, k, &values, mode, false),
+                    1 => pipe_kmv_global(cx, k, &values, mode, true),
+                    w => {
+                        let rows: Vec<(u32, u64)> = values.iter().enumerate().flat_map(|(j, v)| if j % 4 == 0 { vec![(1u32, *v), (2u32, *v)] } else { vec![(1u32, *v)] }).collect();
+                        pipe_kmv_keyed(cx, k, &rows, mode, w == 3);
+                    }
+                }
+                cnt += 1;
+            }
+        }
+        cx.exhaustive_blocks.push(format!("KMV at sketch sizes k in {{1000, 1024/1025, 5000}} with d = k + small offsets (and far below / above): real add_input + build_from_group accumulators in 3-leaf trees, and global / global-lifted / per-key / group_by_key-lifted pipelines ({cnt} inputs; systematic, not exhaustive)"));
     }
 
     marks.push(("random".into(), t0.elapsed().as_secs_f64()));
@@ -915,7 +1270,7 @@ pub fn run(cx: &mut Ctx) {
     for _ in 0..rounds {
         let n = match cx.rng.below(6) { 0 => cx.rng.below(3), 1..=3 => cx.rng.below(30), _ => 50 + cx.rng.below(400) };
         let vals = gen_values(&mut cx.rng, n);
-        let delta = *cx.rng.pick(&[5.0, 20.0, 100.0, 100.0]);
+        let delta = if cx.rng.chance(1, 6) { gen_delta(&mut cx.rng) } else { *cx.rng.pick(&[5.0, 20.0, 100.0, 100.0]) };
         let qs = if cx.rng.chance(1, 2) { grid(20) } else { vec![0.0, 0.25, 0.5, 0.75, 1.0] };
         let parts = *cx.rng.pick(&[1usize, 2, 3, 5, 8, 16, 64]);
         let mode = if cx.rng.chance(1, 3) { Mode::Seq } else { Mode::Par(parts) };
@@ -924,7 +1279,8 @@ pub fn run(cx: &mut Ctx) {
             1 => { let med = cx.rng.chance(1, 2); pipe_td_global(cx, delta, &vals, &qs, mode, true, med) }
             2 => pipe_td_global(cx, delta, &vals, &qs, mode, false, true),
             _ => {
-                let keys = 1 + cx.rng.below(4) as u32;
+                let kmax = if cx.rng.chance(1, 4) { 12 } else { 4 };
+                let keys = 1 + cx.rng.below(kmax) as u32;
                 let rows: Vec<(u32, f64)> = vals.iter().map(|v| ((cx.rng.next_u64() % keys as u64) as u32, *v)).collect();
                 let via_gbk = cx.rng.chance(1, 3);
                 let median = cx.rng.chance(1, 3);
@@ -937,16 +1293,18 @@ pub fn run(cx: &mut Ctx) {
         let m = cx.rng.below(200);
         let values: Vec<u64> = (0..m).map(|_| cx.rng.below(dn) as u64 * 1_000_003 + 17).collect();
         if cx.rng.chance(1, 2) {
-            pipe_kmv_global(cx, k, &values, mode);
+            let lifted = cx.rng.chance(1, 2);
+            pipe_kmv_global(cx, k, &values, mode, lifted);
             // the same multiset, shuffled, other partitioning: same estimate (oracle inside compares with the reference)
             let mut sh = values.clone();
             for i in (1..sh.len()).rev() { let j = cx.rng.below(i + 1); sh.swap(i, j); }
             let p2 = *cx.rng.pick(&[1usize, 2, 7, 32]);
-            pipe_kmv_global(cx, k, &sh, Mode::Par(p2));
+            pipe_kmv_global(cx, k, &sh, Mode::Par(p2), !lifted);
         } else {
             let keys = 1 + cx.rng.below(3) as u32;
             let rows: Vec<(u32, u64)> = values.iter().map(|v| ((cx.rng.next_u64() % keys as u64) as u32, *v)).collect();
-            pipe_kmv_keyed(cx, k, &rows, mode);
+            let via_gbk = cx.rng.chance(1, 2);
+            pipe_kmv_keyed(cx, k, &rows, mode, via_gbk);
         }
     }
 
@@ -954,5 +1312,12 @@ pub fn run(cx: &mut Ctx) {
     /* (5) statistical accuracy: empirical only */
     if cx.tier != Tier::Search { empirical(cx); }
     marks.push(("empirical".into(), t0.elapsed().as_secs_f64()));
+    // `hinj` (the hash is injective on the inputs) was ASSUMED for the cases counted here; bounded
+    let skipped = cx.stats.get(COLLISION_KEY).copied().unwrap_or(0);
+    cx.notes.push(format!("KMV: cases whose exactness in distinct VALUES was not judged because two distinct values share a rank (assumption hinj of kmv_exact_below_k): {skipped} (bound {COLLISION_BOUND})"));
+    if skipped > COLLISION_BOUND {
+        let i = cx.case("KMV 4 new est L0 -".into(), ft(0.0), false);
+        cx.oracle_fail(i, "kmv-hash-rank-collisions-above-bound", format!("{skipped} generated inputs contain two distinct values with the same rank (bound {COLLISION_BOUND}); the rank function no longer separates values"));
+    }
     cx.notes.push(format!("harness phases, cumulative seconds: {marks:?}"));
 }
